@@ -27,8 +27,9 @@ class C17(core.Check):
             'non-trivial = tree with at least 3 elements')
     TRUSTED = ['stdlib html.parser tokenizer (documents enter the model as recorded handler calls)', 'stdlib pickle and copy (the __getstate__/__setstate__/__copy__ hooks they call are modelled)']
     ASSUMPTIONS = ['elements are pickled detached or through their parser (pickling an element that is still attached is outside the domain)']
-    PARTIAL = ['attribute fidelity of the copy (the attribute list reproduces the mapping) is proved for mappings of plain names; for class, style and '
-               'boolean-string attributes it is evaluated on every element of every case (AttrFaithful by vm_compute), not proved in general']
+    PARTIAL = ['attribute fidelity of the copy is proved for every mapping built by the constructor (parsing, AdvancedTag(name, attrList)) with '
+               'non-degenerate style declarations; for mappings reached through later lazy writes (e.g. a style set through the style object '
+               'after a class was synchronised) the order of class/style in the copy can differ - outside the quantified domain, evaluated per case']
 
     def generate(self):
         rng = self.rng
